@@ -172,7 +172,7 @@ func parseCase(line string) (*tcase, bool) {
 // ------------------------------------------------------------------------------------ generator
 
 var failKinds = []string{"400", "404", "500", "503", "hij", "d503"}
-var okKinds = []string{"200", "202", "d200"}
+var okKinds = []string{"200", "202", "d200", "t200"} // t200: a 200 whose response body breaks off (declared longer than sent)
 var tagPool = []string{"env:p", "env:q", "svc:a", "svc:", "x_id:7", "plain", "other:1", "envx:9", "svc:b:c", "myenv:z", "subsvc:q"}
 var srcPool = []string{"", "10.0.0.1", "10.0.0.2", "h"}
 var dynChoices = [][]string{{}, {}, {"env"}, {"env", "svc"}, {"env", "", "svc"}, {"x_id", "env"}, {"svc"}, {"s"}}
@@ -319,7 +319,7 @@ type upstream struct {
 	seen     map[int]bool
 }
 
-func okKind(k string) bool { return k == "200" || k == "202" || k == "d200" }
+func okKind(k string) bool { return k == "200" || k == "202" || k == "d200" || k == "t200" }
 
 func eqStrs(a, b []string) bool {
 	if len(a) != len(b) {
@@ -520,6 +520,19 @@ func (u *upstream) ServeHTTP(w http.ResponseWriter, req *http.Request) {
 			}
 		}
 		w.WriteHeader(500)
+	case "t200":
+		// the status line and headers of a success arrive, the announced body does not
+		w.Header().Set("Content-Length", "64")
+		w.WriteHeader(200)
+		_, _ = w.Write([]byte("short"))
+		if f, ok := w.(http.Flusher); ok {
+			f.Flush()
+		}
+		if hj, ok := w.(http.Hijacker); ok {
+			if conn, _, err := hj.Hijack(); err == nil {
+				conn.Close()
+			}
+		}
 	case "d200", "d503":
 		time.Sleep(30 * time.Millisecond)
 		code, _ := strconv.Atoi(kind[1:])
